@@ -35,7 +35,9 @@ def live (s : Store) (now : Nat) (k : Key) : Bool :=
   | none => false
   | some e => alive now e
 
-def erase (s : Store) (k : Key) : Store := s.filter (fun p => decide (p.1 ≠ k))
+def erase : Store → Key → Store
+  | [], _ => []
+  | p :: r, k => if p.1 = k then erase r k else p :: erase r k
 def put (s : Store) (k : Key) (e : Nat) : Store := (k, e) :: erase s k
 /-- `ttl <= 0` ⇒ never expires. -/
 def expiry (now ttl : Nat) : Nat := if ttl = 0 then 0 else now + ttl
